@@ -33,9 +33,14 @@ package mqtt
 //@ ensures[C09] err == nil && packetID != 0 ==> r[0][len(r[0])-2] == (packetID / 256) % 256 && r[0][len(r[0])-1] == packetID % 256
 
 //@ func mqtt.writeTo -> err
+// with a timeout configured no write waits without a deadline; without one, none is armed
+//@ at[C10,C08] call Conn.Write#1: assert idleTimeout != 0 ==> wdl(conn) == 1
+//@ ensures[C10] idleTimeout == 0 ==> wdl(conn) == old(wdl(conn))
 //@ modifies wire(conn), wire_len(conn), wdl(conn)
 //@ requires conn != nil
 //@ loop 1: modifies wire(conn), wire_len(conn), wdl(conn)
+//@ loop[C10] 1: decreases len(p)
+//@ loop 1: invariant idleTimeout == 0 ==> wdl(conn) == old(wdl(conn))
 //@ loop 1: invariant ref(p) == ref(old(p)) && len(p) <= len(old(p)) && off(p) + len(p) == off(old(p)) + len(old(p))
 //@ loop 1: invariant wire_len(conn) == old(wire_len(conn)) + (len(old(p)) - len(p))
 //@ loop 1: invariant forall(k, 0, old(wire_len(conn)), wire(conn)[k] == old(wire(conn))[k])
@@ -48,11 +53,18 @@ package mqtt
 //@ ensures foreign(err) && !perr(err)
 
 //@ func mqtt.(*Client).peekPacket -> head, err
+// a read that may have to wait for the network (the buffer lacks what is asked) has a deadline when a timeout is configured
+//@ at[C10] call ReadByte#2: assert c.PauseTimeout != 0 && rx_buf(c.bufr) == 0 ==> rdl(c.readConn) == 1
+//@ at[C10] call Peek#1: assert c.PauseTimeout != 0 && rx_buf(c.bufr) < size ==> rdl(c.readConn) == 1
+//@ ensures[C10] c.PauseTimeout == 0 ==> rdl(c.readConn) == old(rdl(c.readConn))
 //@ modifies c.peek, rx_pos(c.bufr), rx_buf(c.bufr), rx_pend(c.bufr), rdl(c.readConn), cpos(rx_src(c.bufr))
-//@ requires c.bufr != nil && c.readConn != nil
+//@ requires c.bufr != nil && c.readConn != nil && len(c.peek) <= rx_size(c.bufr)
 //@ loop 1: unroll 5
 //@ loop 2: let P = rx_pos(c.bufr)
 //@ loop 2: modifies c.peek, rx_buf(c.bufr), rx_pend(c.bufr), rdl(c.readConn), cpos(rx_src(c.bufr))
+//@ loop 2: invariant len(c.peek) <= rx_size(c.bufr)
+//@ loop[C10] 2: decreases rx_size(c.bufr) - len(c.peek)
+//@ loop 2: invariant c.PauseTimeout == 0 ==> rdl(c.readConn) == old(rdl(c.readConn))
 //@ loop 2: invariant rx_pos(c.bufr) == P
 //@ loop 2: invariant (ref(c.peek) == rx_bufref(c.bufr) || ref(c.peek) == 0 || c.peek == old(c.peek)) && (len(c.peek) <= rx_size(c.bufr) || c.peek == old(c.peek))
 //@ ensures[C13] (err == nil || hastype(err, *BigMessage)) ==> rx_pos(c.bufr) - old(rx_pos(c.bufr)) >= 2 && rx_pos(c.bufr) - old(rx_pos(c.bufr)) <= 5
@@ -289,6 +301,10 @@ package mqtt
 //@ ensures[C07,C04] err == nil && (head/2)%4 == 2 ==> len(c.pendingAck) == 4 && c.pendingAck[0] == 80 && c.pendingAck[1] == 2 && c.pendingAck[2] == c.peek[2+len(topic)] && c.pendingAck[3] == c.peek[3+len(topic)]
 //@ ensures[C07] err == nil && (head/2)%4 != 0 ==> old(len(c.pendingAck)) == 0 && c.peek[2+len(topic)]*256 + c.peek[3+len(topic)] != 0
 //@ ensures[C04,C07] err == nil ==> !old(qos2dup(c, head))
+// ... and every well-formed PUBLISH that is not such a retransmission is delivered, down to the empty payload
+//@ ensures[C06,C13] (head/2)%4 == 0 && len(c.peek) >= 2 && c.peek[0]*256 + c.peek[1] + 2 <= len(c.peek) ==> err == nil
+//@ ensures[C06,C13] (head/2)%4 == 1 && len(c.peek) >= 2 && c.peek[0]*256 + c.peek[1] + 4 <= len(c.peek) && c.peek[2 + c.peek[0]*256 + c.peek[1]]*256 + c.peek[3 + c.peek[0]*256 + c.peek[1]] != 0 && old(len(c.pendingAck)) == 0 ==> err == nil
+//@ ensures[C06,C13,C04] (head/2)%4 == 2 && len(c.peek) >= 2 && c.peek[0]*256 + c.peek[1] + 4 <= len(c.peek) && c.peek[2 + c.peek[0]*256 + c.peek[1]]*256 + c.peek[3 + c.peek[0]*256 + c.peek[1]] != 0 && old(len(c.pendingAck)) == 0 && !old(qos2dup(c, head)) ==> err == nil || perr(err)
 //@ ensures[C04] err == nil && (head/2)%4 == 2 ==> !st_has(c.persistence, 65536 + c.peek[2+len(topic)]*256 + c.peek[3+len(topic)])
 //@ ensures[C04] err == errDupe ==> old(qos2dup(c, head))
 // the duplicate is answered: PUBREC with its identifier is the next thing on the connection, nothing stays pending
@@ -345,9 +361,13 @@ package mqtt
 
 // writeBuffersTo: as writeTo, over the flattened buffers.
 //@ func mqtt.writeBuffersTo -> err
+//@ at[C10,C08] call WriteTo#1: assert idleTimeout != 0 ==> wdl(conn) == 1
+//@ ensures[C10] idleTimeout == 0 ==> wdl(conn) == old(wdl(conn))
 //@ modifies wire(conn), wire_len(conn), wdl(conn), elems(p)
 //@ requires conn != nil
 //@ loop 1: modifies wire(conn), wire_len(conn), wdl(conn), p, elems(old(p))
+//@ loop[C10] 1: decreases flatlen(p)
+//@ loop 1: invariant idleTimeout == 0 ==> wdl(conn) == old(wdl(conn))
 //@ loop 1: invariant ref(p) == ref(old(p)) && flatlen(p) >= 0 && flatlen(p) <= old(flatlen(p)) && wire_len(conn) == old(wire_len(conn)) + (old(flatlen(p)) - flatlen(p))
 //@ loop 1: invariant forall(k, 0, old(wire_len(conn)), wire(conn)[k] == old(wire(conn))[k])
 //@ loop 1: invariant forall(i, old(wire_len(conn)), wire_len(conn), wire(conn)[i] == old(flatat(p, i - old(wire_len(conn)))))
@@ -403,6 +423,7 @@ package mqtt
 //@ requires warn != nil
 //@ modifies *warn, elems(*warn)
 //@ loop 1: modifies *warn, elems(*warn)
+//@ loop[C10] 1: decreases 2*len(keys) - i
 //@ loop 1: invariant ref(keys) == ref(old(keys)) && off(keys) >= off(old(keys)) && off(keys) + len(keys) == off(old(keys)) + len(old(keys)) && cap(keys) == cap(old(keys)) - (off(keys) - off(old(keys)))
 //@ loop 1: invariant i >= 1 && (len(keys) >= 1 ==> i <= len(keys)) && (len(old(keys)) > 0 ==> len(keys) > 0)
 //@ loop 1: invariant forall(j, 1, i, j < len(keys) ==> adj(keys[j-1], keys[j]))
@@ -572,6 +593,7 @@ package mqtt
 //@ requires forall(k, k >= 32768 && k < 65536 && st_has(c.persistence, k) ==> st_len(c.persistence, k) >= 2)
 //@ modifies seq.submitN, wire(conn), wire_len(conn), wdl(conn)
 //@ loop 1: modifies seq.submitN, wire(conn), wire_len(conn), wdl(conn)
+//@ loop[C10,C01] 1: decreases seq.acceptN - seqNo
 //@ loop 1: invariant seqNoOffset <= seqNo && (seqNo <= seq.acceptN || seqNo == seqNoOffset) && seq.acceptN == old(seq.acceptN)
 //@ loop[C05] 1: invariant (seqNo == seqNoOffset || seq.submitN >= seqNo) && seq.submitN >= old(seq.submitN) && (seq.submitN == old(seq.submitN) || seq.submitN == seqNo)
 //@ loop 1: invariant wire_len(conn) >= old(wire_len(conn)) && forall(k, 0, old(wire_len(conn)), wire(conn)[k] == old(wire(conn))[k])
@@ -589,6 +611,7 @@ package mqtt
 // two channels are shared with it); what is checked of the hand-over is that the send after the handshake
 // cannot block, whether or not that goroutine is still around (F6, fixed).
 //@ func mqtt.(*Client).dialAndConnect -> conn, bufr, err
+//@ at[C10,C12] call WithTimeout#1: assert d == c.PauseTimeout && d != 0
 //@ requires c.persistence != nil && c.ctx != nil && c.Dialer != nil && config != nil
 //@ requires len(config.UserName) <= 65535 && len(config.Password) <= 65535 && len(config.Will.Topic) <= 65535 && len(config.Will.Message) <= 65535
 //@ requires st_has(c.persistence, 0) ==> st_len(c.persistence, 0) <= 65535
@@ -646,6 +669,8 @@ package mqtt
 // handshake: CONNECT is the first and only write; nil only for a valid accepting CONNACK;
 // the returned reader stands exactly behind the four CONNACK bytes of the connection's stream.
 //@ func mqtt.(*Client).handshake -> r, err
+//@ at[C10,C12,C18] call Peek#1: assert c.PauseTimeout != 0 ==> rdl(conn) == 1
+//@ at[C10,C18] call writeTo#1: assert idleTimeout == c.PauseTimeout
 //@ requires conn != nil && config != nil && cfgok(config, clientID)
 //@ modifies wire(conn), wire_len(conn), wdl(conn), rdl(conn), cpos(conn), c.InNewSession.v
 //@ at[C18] call writeTo#1: assert wire_len(conn) == old(wire_len(conn))
@@ -683,9 +708,13 @@ package mqtt
 
 // discard: skips exactly n bytes of the stream, tolerating deadline expiries that saw progress.
 //@ func mqtt.(*Client).discard -> err
+//@ at[C10] call Discard#1: assert c.PauseTimeout != 0 ==> rdl(c.readConn) == 1
+//@ ensures[C10] c.PauseTimeout == 0 ==> rdl(c.readConn) == old(rdl(c.readConn))
 //@ requires c.bufr != nil && c.readConn != nil && n >= 0
 //@ modifies rx_pos(c.bufr), rx_buf(c.bufr), rx_pend(c.bufr), rdl(c.readConn), cpos(rx_src(c.bufr))
 //@ loop 1: modifies rx_pos(c.bufr), rx_buf(c.bufr), rx_pend(c.bufr), rdl(c.readConn), cpos(rx_src(c.bufr))
+//@ loop[C10] 1: decreases n
+//@ loop 1: invariant c.PauseTimeout == 0 ==> rdl(c.readConn) == old(rdl(c.readConn))
 //@ loop 1: invariant n >= 0 && n <= old(n) && rx_pos(c.bufr) + n == old(rx_pos(c.bufr)) + old(n)
 //@ ensures[C06] err == nil ==> rx_pos(c.bufr) == old(rx_pos(c.bufr)) + n
 //@ ensures[C06] rx_pos(c.bufr) >= old(rx_pos(c.bufr)) && rx_pos(c.bufr) <= old(rx_pos(c.bufr)) + n
